@@ -26,6 +26,7 @@ type Built struct {
 	Toks     []int // token of input j
 	// the filter options of a redefine scenario were given to NewFunc (as defaults) instead of to Redefine
 	FiltersAtCtor bool
+	Sibling       *am.Func
 }
 
 func labelOfValue(v *am.Value) Label {
@@ -70,6 +71,11 @@ func instantiate(s Scenario, r *rand.Rand, tok0 int) (b *Built, err error) {
 		b.FiltersAtCtor = true
 	}
 	b.Defaults = defaults
+	if s.Mode != "convert" && s.Mode != "convcall" && s.Bad == "" {
+		// a sibling function whose options are the same array, one element longer (as two functions configured from a
+		// common prefix with append are): nothing done with the target may change what the sibling was given
+		b.Sibling, _ = am.NewFunc(func(x sibT) int { return x.ID }, append(defaults, am.Typed(sibT{ID: sibID}))...)
+	}
 	if s.Mode != "convert" && s.Mode != "convcall" {
 		// a target with defaults is now and then constructed through NewFuncList
 		env.ViaList = s.Target.Form != "built" && len(defaults) > 0 && r.Intn(4) == 0
@@ -180,6 +186,7 @@ func (b *Built) classify(res am.Result, phase int) EvRet {
 	ret := EvRet{Ev: "ret", Missing: []Label{}, EInputs: []Label{}, EConvs: []int{}, Outs: []int{}, Phase: phase}
 	err := res.Err()
 	ret.Len = res.Len()
+	ret.SibBad = b.sibBad()
 	if err == nil {
 		ret.Kind = "ok"
 		ret.Outs = ResultToks(res)
@@ -353,6 +360,24 @@ func (b *Built) concurrentRedefined(g int, opts []am.Arg) {
 	b.Env.mu.Unlock()
 }
 
+type sibT struct{ ID int }
+
+const sibID = 424242
+
+// sibBad reports whether the sibling function (see instantiate) has lost its own default value.
+func (b *Built) sibBad() (bad bool) {
+	if b.Sibling == nil {
+		return false
+	}
+	defer func() {
+		if recover() != nil {
+			bad = true
+		}
+	}()
+	res := b.Sibling.Call()
+	return res.Err() != nil || res.Len() != 1 || res.Out(0).(int) != sibID
+}
+
 // StaleTok is the first token of values that belong to ANOTHER use of the target's value sets (wrapperCall): no
 // scenario supplies them, so an execution that receives one has been handed a value nobody gave to this call.
 const StaleTok = 900000
@@ -500,6 +525,7 @@ func (b *Built) Execute(r *rand.Rand) {
 		res := nf.Call(call...)
 		ret := emptyRet("", s.Phase0+1)
 		ret.Len = res.Len()
+		ret.SibBad = b.sibBad()
 		if e := res.Err(); e != nil {
 			b.classifyErr(e, &ret)
 		} else {
